@@ -12,7 +12,16 @@ use mc_core::explore::{explore, Cfg, Outcome, Scenario};
 use mc_core::report::{read_replay, Evidence, Reporter};
 use mc_core::Chooser;
 use serde_json::{json, Value};
+use std::sync::atomic::{AtomicU64, Ordering};
 use std::time::{Duration, Instant};
+
+/// informational tallies over all executions (re-executions for the determinism check included)
+pub static COMPLETE_SUCCESSES: AtomicU64 = AtomicU64::new(0);
+pub static REPORTED_ERRORS: AtomicU64 = AtomicU64::new(0);
+pub static REUSES: AtomicU64 = AtomicU64::new(0);
+pub static FRESH_FOR_LATER_REQUEST: AtomicU64 = AtomicU64::new(0);
+pub static CLOSING_BEYOND_LIMIT: AtomicU64 = AtomicU64::new(0);
+pub static WAITING_FOR_SERVER: AtomicU64 = AtomicU64::new(0);
 
 impl Scenario for Scen {
     fn name(&self) -> String {
@@ -27,10 +36,11 @@ impl Scenario for Scen {
             mc_core::machinery(format!("step cap reached in scenario {}", scen::name(self)));
         }
         let violations = oracle::check(self, &obs);
+        oracle::tally(self, &obs);
         let canon = oracle::canonical(self, &obs);
         let devs = ch.deviations();
         let nontrivial = oracle::nontrivial(self, devs);
-        let sample = if devs <= 1 {
+        let sample = if nontrivial && devs <= 2 && mc_core::fnv_str(&canon) % 23 == 0 {
             Some(json!({
                 "scenario": scen::name(self),
                 "picks": ch.picks(),
@@ -108,11 +118,22 @@ fn main() {
          fault, a leftover, more than one request, or at least one non-default socket answer.",
     );
     ev.set("scenario_groups", groups);
+    ev.set(
+        "tallies_over_all_executions_incl_determinism_reruns",
+        json!({
+            "requests_delivered_complete_and_correct": COMPLETE_SUCCESSES.load(Ordering::Relaxed),
+            "requests_that_reported_an_error": REPORTED_ERRORS.load(Ordering::Relaxed),
+            "requests_written_on_a_reused_connection": REUSES.load(Ordering::Relaxed),
+            "later_requests_that_got_a_fresh_connection": FRESH_FOR_LATER_REQUEST.load(Ordering::Relaxed),
+            "executions_where_open_plus_closing_connections_exceeded_the_limit_(informational)": CLOSING_BEYOND_LIMIT.load(Ordering::Relaxed),
+            "executions_ending_with_a_consumer_legitimately_waiting_for_the_server": WAITING_FOR_SERVER.load(Ordering::Relaxed),
+        }),
+    );
     ev.set("violating_executions", stats.violating_executions);
     ev.set("findings", Value::Array(reporter.summaries()));
     ev.set("known_findings_matched", reporter.known_count() as u64);
     ev.assume("requests are bodiless GET/HEAD to one authority over plain HTTP/1.1 (no TLS, no HTTP/2, no proxy)");
-    ev.assume("a connection handed to the pool's graceful-close task (poll_shutdown called) no longer counts as open for the limit clause");
+    ev.assume("limit clause: open = created by the connector, not dropped, poll_shutdown not yet called; the plain-TCP pool runs without disconnect timeout and drops closed connections at once, so counting a connection until its shutdown completed gives the same numbers (see tally 'open_plus_closing', 0 when they never differ); the graceful-close task of the TLS pool is not exercised");
     ev.assume("leftover bytes arrive together with the framed response; bytes arriving after the next request was written are indistinguishable from its response and are not enumerated");
     ev.assume("response sizes: 0, 5, 13 and 70000 body bytes; chunk lists [3,2], [3;ext,10 LWS,0;ext], [3,2]+trailer, [0x3000,1,0x8000,rest]");
     ev.assume("pool idle/lifetime limits (std::time::Instant) and all timeouts are set to 1 h so they never fire; virtual time per execution <= 0.5 s");
